@@ -699,6 +699,47 @@ class FnFlow:
         return out
 
 
+    def reaching_defs_assuming(self, node: ast.AST, name: str, atom_text: str, polarity: bool = True) -> list[tuple[str, ast.AST]]:
+        """reaching_defs restricted to the paths on which `atom_text` has truth value `polarity` wherever it is tested: a definition counts
+        when some CFG path leads from it to the use without another definition of the name and without a branch edge that says the
+        opposite.  (The atom must not change its value between the definition and the use: callers pass tests on a parameter.)"""
+        defs = self.prog.local_defs(self.fn, name)
+        use = self.cfg.node_for(node)
+        if use is None:
+            return list(defs)
+        placed = []
+        for kind, dn in defs:
+            nid = self.cfg.node_for(dn.context_expr if kind == "with" else dn)
+            if nid is None:
+                return list(defs)
+            placed.append((kind, dn, nid))
+        ids = {nid for _, _, nid in placed}
+        g = self.cfg.g
+
+        def contradicted(a: int, b: int) -> bool:
+            lab = g[a][b].get("label")
+            return lab is not None and ast.unparse(lab[0]) == atom_text and lab[1] != polarity
+
+        out = []
+        for kind, dn, nid in placed:
+            seen, todo, hit = {nid}, [nid], False
+            while todo and not hit:
+                n = todo.pop()
+                for s_ in g.successors(n):
+                    if contradicted(n, s_):
+                        continue
+                    if s_ == use:
+                        hit = True
+                        break
+                    if s_ in seen or s_ in ids:
+                        continue
+                    seen.add(s_)
+                    todo.append(s_)
+            if hit or (nid == use and kind in ("for", "walrus")):
+                out.append((kind, dn))
+        return out
+
+
 _flow_cache: dict = {}
 
 
